@@ -92,8 +92,14 @@ func mutateBytes(rng *rand.Rand, b []byte, kind string, donor []byte) []byte {
 	case "empty":
 		return []byte{}
 	}
+	if strings.HasPrefix(kind, "g:") {
+		return gridBytes(kind, b, mutateOnEd)
+	}
 	return b
 }
+
+// set by runInjection: the protocol of the current injection runs on edwards25519
+var mutateOnEd bool
 
 // tamper returns a modified copy of msg per spec; donor is the corresponding message of another party
 func tamperMsg(rng *rand.Rand, m tss.Message, donor tss.Message, s injSpec) (tss.Message, bool) {
@@ -187,7 +193,7 @@ func c05Protos(rng *rand.Rand) []c05Proto {
 				keys[i] = edKs.keys[i]
 				keys[i].Xi = new(big.Int).Set(edKs.keys[i].Xi)
 			}
-			return eddsaResharingNet(r, keys, edKs.pids[:2], 1, makePIDs([]*big.Int{big.NewInt(5001), big.NewInt(5002)}, "N"), 1)
+			return eddsaResharingNet(r, keys, edKs.pids[:2], 1, makePIDs([]*big.Int{big.NewInt(5001), big.NewInt(5002), big.NewInt(5003)}, "N"), 1)
 		}, checkOut: func(net *Net, honest []int) string {
 			for _, i := range honest {
 				if net.Nodes[i].Role != "new" {
@@ -231,7 +237,7 @@ func c05Protos(rng *rand.Rand) []c05Proto {
 			keys[i] = eks.keys[i]
 			keys[i].Xi = new(big.Int).Set(eks.keys[i].Xi)
 		}
-		return ecdsaResharingNet(r, keys, eks.pids[:3], eks.t, makePIDs([]*big.Int{big.NewInt(6001), big.NewInt(6002)}, "N"), 1, true, 1)
+		return ecdsaResharingNet(r, keys, eks.pids[:3], eks.t, makePIDs([]*big.Int{big.NewInt(6001), big.NewInt(6002), big.NewInt(6003)}, "N"), 1, true, 1)
 	}, checkOut: func(net *Net, honest []int) string {
 		for _, i := range honest {
 			if net.Nodes[i].Role != "new" {
@@ -251,7 +257,7 @@ func c05Protos(rng *rand.Rand) []c05Proto {
 		return ""
 	}})
 	out = append(out, c05Proto{name: "ecdsa-keygen", build: func(r *rand.Rand) *Net {
-		return ecdsaKeygenNet(r, 2, 1, partyKeys(r, 2, 0, tss.S256().Params().N), 0)
+		return ecdsaKeygenNet(r, 3, 1, partyKeys(r, 3, 0, tss.S256().Params().N), 0)
 	}, checkOut: func(net *Net, honest []int) string {
 		for _, i := range honest {
 			for _, e := range net.Nodes[i].Ends {
@@ -333,19 +339,30 @@ func enumerateSpecs(rng *rand.Rand, p c05Proto, perField int) []injSpec {
 // honest reference run per protocol (donor messages for "other"/"mirror"), built once per process
 var refRuns = map[string]*Net{}
 
-// run one injection in-process
-func runInjection(p c05Proto, s injSpec) injResult {
-	rng := rand.New(rand.NewSource(s.Seed))
-	net := p.build(rand.New(rand.NewSource(11)))
-	res := injResult{Spec: s}
-	net.StopOnError = true
-	// the donor for "other"/"mirror": the corresponding message of another party, taken from a reference run
+var protoRegistry = map[string]c05Proto{}
+
+func refRunOf(p c05Proto) *Net {
 	ref := refRuns[p.name]
 	if ref == nil {
 		ref = p.build(rand.New(rand.NewSource(11)))
 		ref.Run(rand.New(rand.NewSource(1)), Strategy{Name: "fifo", Pick: pickFIFO}, 300000)
 		refRuns[p.name] = ref
 	}
+	return ref
+}
+
+// run one injection in-process
+func runInjection(p c05Proto, s injSpec) injResult {
+	if s.Kind == "junk" {
+		return runJunk(p, s)
+	}
+	rng := rand.New(rand.NewSource(s.Seed))
+	net := p.build(rand.New(rand.NewSource(11)))
+	res := injResult{Spec: s}
+	net.StopOnError = true
+	mutateOnEd = strings.HasPrefix(p.name, "eddsa")
+	// the donor for "other"/"mirror": the corresponding message of another party, taken from a reference run
+	ref := refRunOf(p)
 	var donor tss.Message
 	for off := 1; off < len(ref.Nodes) && donor == nil; off++ {
 		o := (s.Dev + off) % len(ref.Nodes)
@@ -405,10 +422,16 @@ func runInjection(p c05Proto, s injSpec) injResult {
 				}
 				cs = append(cs, idx)
 			}
-			// "itself": the reporting party naming itself counts as naming nobody
+			// "itself": the reporting party naming itself counts as naming nobody, but only for the library's
+			// local assertions (a failed final self-check, a local generation failure) - never for the failed
+			// verification of something a peer sent
+			localAssertion := false
+			for _, m := range []string{"U doesn't equal T", "assertion failed: V_0 != y", "read BigXj failed", "pre-params generation failed", "is not satisfied by the key count", "not in the old or the new committee"} {
+				localAssertion = localAssertion || strings.Contains(nd.Err.Error(), m)
+			}
 			var cs2 []int
 			for _, c := range cs {
-				if c != i {
+				if c != i || !localAssertion {
 					cs2 = append(cs2, c)
 				} else {
 					res.SelfBlame++
@@ -442,8 +465,9 @@ func c05Child(specFile, outFile string) {
 	}
 	defer f.Close()
 	protos := map[string]c05Proto{}
-	for _, p := range c05Protos(rand.New(rand.NewSource(5))) {
+	for _, p := range c06Protos(rand.New(rand.NewSource(5))) {
 		protos[p.name] = p
+		protoRegistry[p.name] = p
 	}
 	for _, s := range specs {
 		p, ok := protos[s.Proto]
@@ -457,51 +481,9 @@ func c05Child(specFile, outFile string) {
 	}
 }
 
-func runC05(r *Run, rng *rand.Rand, thorough bool) {
-	r.Rule = "fault injection: one party deviates by altering one field of one message type (+1, random same-size, the value of another party's corresponding message, emptied, list removed) or by replaying another party's whole message; every protocol, every position, every byte field found by protobuf reflection (each element of list fields, sampled for long lists); injections run in child processes so that a crash in a library goroutine is attributed to its injection; non-trivial = one applied injection; direct assertions: no honest output is invalid, every reported error names nobody but the deviator, a detected alteration names exactly the deviator, no crash"
-	blameCorrespondence(r, rng, thorough)
-	reshareForgery(r, rng, "ed")
-	reshareForgery(r, rng, "ec")
-	protos := c05Protos(rng)
-	var all []injSpec
-	for _, p := range protos {
-		per := 1
-		if thorough {
-			per = 3
-		}
-		specs := enumerateSpecs(rng, p, per)
-		rng.Shuffle(len(specs), func(i, j int) { specs[i], specs[j] = specs[j], specs[i] })
-		if !thorough {
-			// quick tier: stratified — one injection per (message type, field) and one whole-message mirror per type,
-			// with the alteration kind and the deviating position rotating
-			seen := map[string]bool{}
-			var pick []injSpec
-			for _, sp := range specs {
-				k := sp.Type + "." + sp.Field
-				if sp.Kind == "mirror" {
-					k = sp.Type + "/mirror"
-				}
-				if sp.Kind == "drop-field" || sp.Kind == "empty" {
-					k += "/structural"
-				}
-				if !seen[k] {
-					seen[k] = true
-					pick = append(pick, sp)
-				}
-			}
-			specs = pick
-		} else {
-			lim := 400
-			if strings.HasPrefix(p.name, "ecdsa") {
-				lim = 300
-			}
-			if len(specs) > lim {
-				specs = specs[:lim]
-			}
-		}
-		r.Note("%s: %d injection specs", p.name, len(specs))
-		all = append(all, specs...)
-	}
+// runSpecsInChildren runs the injections in parallel child processes (6 per child, 12 children at a time); a child
+// that dies is attributed to the injection it was running and the rest of its batch is re-run.
+func runSpecsInChildren(r *Run, all []injSpec) (chan []injResult, []string) {
 	scratch := os.Getenv("VERIF_SCRATCH")
 	if scratch == "" {
 		scratch, _ = os.MkdirTemp("/verif/.work", "c05-")
@@ -572,7 +554,73 @@ func runC05(r *Run, rng *rand.Rand, thorough bool) {
 	}
 	close(results)
 	close(crashes)
+	var crashed []string
 	for c := range crashes {
+		crashed = append(crashed, c)
+	}
+	return results, crashed
+}
+
+func runC05(r *Run, rng *rand.Rand, thorough bool) {
+	r.Rule = "fault injection: one party deviates by altering one field of one message type (+1, random same-size, the value of another party's corresponding message, emptied, list removed) or by replaying another party's whole message; every protocol, every position, every byte field found by protobuf reflection (each element of list fields, sampled for long lists); injections run in child processes so that a crash in a library goroutine is attributed to its injection; non-trivial = one applied injection; direct assertions: no honest output is invalid, every reported error names nobody but the deviator, a detected alteration names exactly the deviator, no crash"
+	blameCorrespondence(r, rng, thorough)
+	reshareForgery(r, rng, "ed")
+	reshareForgery(r, rng, "ec")
+	protos := c05Protos(rng)
+	var all []injSpec
+	for _, p := range protos {
+		per := 1
+		if thorough {
+			per = 3
+		}
+		specs := enumerateSpecs(rng, p, per)
+		rng.Shuffle(len(specs), func(i, j int) { specs[i], specs[j] = specs[j], specs[i] })
+		if !thorough {
+			// quick tier: stratified — per (message type, field) one injection by the first and one by the last of the
+			// parties that send that type (attribution must not depend on the deviator's position), and one
+			// whole-message mirror per type and position, with the alteration kind rotating
+			lo, hi := map[string]int{}, map[string]int{}
+			for _, sp := range specs {
+				if v, ok := lo[sp.Type]; !ok || sp.Dev < v {
+					lo[sp.Type] = sp.Dev
+				}
+				if v, ok := hi[sp.Type]; !ok || sp.Dev > v {
+					hi[sp.Type] = sp.Dev
+				}
+			}
+			seen := map[string]bool{}
+			var pick []injSpec
+			for _, sp := range specs {
+				if sp.Dev != lo[sp.Type] && sp.Dev != hi[sp.Type] {
+					continue
+				}
+				k := fmt.Sprintf("%s.%s@%d", sp.Type, sp.Field, sp.Dev)
+				if sp.Kind == "mirror" {
+					k = fmt.Sprintf("%s/mirror@%d", sp.Type, sp.Dev)
+				}
+				if sp.Kind == "drop-field" || sp.Kind == "empty" {
+					k += "/structural"
+				}
+				if !seen[k] {
+					seen[k] = true
+					pick = append(pick, sp)
+				}
+			}
+			specs = pick
+		} else {
+			lim := 400
+			if strings.HasPrefix(p.name, "ecdsa") {
+				lim = 300
+			}
+			if len(specs) > lim {
+				specs = specs[:lim]
+			}
+		}
+		r.Note("%s: %d injection specs", p.name, len(specs))
+		all = append(all, specs...)
+	}
+	results, crashed := runSpecsInChildren(r, all)
+	for _, c := range crashed {
 		parts := strings.SplitN(c, " :: ", 2)
 		key := "protocol-crash/" + strings.Join(strings.Fields(parts[0])[:3], "/")
 		r.Evals++
